@@ -42,12 +42,12 @@ type Ledger struct {
 
 // Deviations enabled by the scenario (all off = the kernel's real answers only).
 type Deviations struct {
-	SendShort  bool // sendmsg/writev: short write (half, 1 byte) or EAGAIN
-	ReadShort  bool // readv: short read (1 byte, half) or EAGAIN
-	EpollEINTR bool
+	SendShort    bool // sendmsg/writev: short write (half, 1 byte) or EAGAIN
+	ReadShort    bool // readv: short read (1 byte, half) or EAGAIN
+	EpollEINTR   bool
 	AcceptEMFILE bool
-	CtlFail    bool // epoll_ctl ADD fails with ENOMEM
-	SockoptFail bool
+	CtlFail      bool // epoll_ctl ADD fails with ENOMEM
+	SockoptFail  bool
 }
 
 var led *Ledger
@@ -465,8 +465,15 @@ func Syscall6(trap, a1, a2, a3, a4, a5, a6 uintptr) (r1, r2 uintptr, err syscall
 func epollWait(epfd, events, n, msec uintptr) (r1, r2 uintptr, err syscall.Errno) {
 	ex := vsched.Cur()
 	if int32(msec) == 0 {
+		if vsched.HogHint(false) {
+			// third non-blocking poll in a row without being switched out: the loop is
+			// busy-waiting for another thread (level-triggered event whose descriptor
+			// is being deregistered elsewhere); model it as a yielding spin.
+			vsched.Yield()
+		}
 		pt(fmt.Sprintf("epoll_wait(%d,0)", epfd))
 	} else {
+		vsched.HogHint(true)
 		var lastEpoch uint64 = ^uint64(0)
 		var last bool
 		vsched.Block(vsched.KEpollWait, vsched.ObjKernel, fmt.Sprintf("epoll_wait(%d,block)", epfd), func() bool {
